@@ -188,7 +188,7 @@ def binding_b(ctx, proto, drv, nhist=60, nmsgs=6, want_json=False):
         exp = exps[h % len(exps)]
         jobs.append({"msgs": [{"exp": exp, "buf": m} for m in g.history(nmsgs)], "want_json": want_json})
     # every element of the information model, in every run: at its own size, reduced and oversized
-    for variant in ("own", "reduced", "oversized"):
+    for variant in ("own", "reduced", "half", "oversized"):
         ph = g.per_element(variant)
         for i in range(0, len(ph), 2):
             jobs.append({"msgs": [{"exp": exps[0], "buf": m} for m in ph[i:i + 2]], "want_json": want_json})
@@ -233,7 +233,7 @@ def binding_b(ctx, proto, drv, nhist=60, nmsgs=6, want_json=False):
     ctx.sample({"binding": "B", "proto": proto, "message": jobs[0]["msgs"][-1]})
     # the same per-element histories with the BUILT-IN table only (no information-element file installed: the default)
     bjobs = []
-    for variant in ("own", "reduced"):
+    for variant in ("own", "reduced", "half"):
         ph = g.per_element(variant)
         for i in range(0, len(ph), 2):
             bjobs.append({"msgs": [{"exp": exps[0], "buf": m} for m in ph[i:i + 2]], "want_json": want_json})
